@@ -1274,7 +1274,7 @@ func randomCase(n int, maxRuns int) gCase {
 			c.Pre = append(c.Pre, cls)
 		}
 	}
-	if r.Intn(12) == 0 {
+	if r.Intn(20) == 0 {
 		c.Pre = c.Pre[1:] // the agent does not hold the user's key
 	}
 	nr := 1 + r.Intn(maxRuns)
@@ -1311,16 +1311,16 @@ func randomCase(n int, maxRuns int) gCase {
 		if run.Hs == nil {
 			run.Hs = []string{}
 		}
-		if r.Intn(8) == 0 {
+		if r.Intn(16) == 0 {
 			run.Ns = "NSOK"
 		}
-		run.Hard = r.Intn(10) == 0
+		run.Hard = r.Intn(20) == 0
 		if r.Intn(5) > 0 {
 			run.Dir = gDir{Lp: fcls([]int{2, 8, 1, 1}), Lb: fcls([]int{6, 2, 1, 1}), Rp: fcls([]int{8, 2, 1, 0}), Rb: fcls([]int{9, 1, 1, 0})}
 		} else {
 			run.Dir = gDir{Lp: fcls([]int{3, 2, 2, 2}), Lb: fcls([]int{3, 3, 2, 2}), Rp: fcls([]int{3, 4, 2, 0}), Rb: fcls([]int{4, 3, 2, 0})}
 		}
-		if r.Intn(4) == 0 {
+		if r.Intn(5) == 0 {
 			run.Ans = []string{"nokey", "otherkey", "otherdata", "replay", "replay", "garbage", "empty", "failure", "closed"}[r.Intn(9)]
 		}
 		// validity 1 s .. 10 y, log-uniform, with the end points
